@@ -53,7 +53,7 @@ class Prover:
         self.hyps = list(hyps)
         self.facts = list(facts)
         self.N = Normalizer(_positive_syms_from(self.hyps))
-        self.N.known_source = lambda: [h for h in self.hyps if not _is_simple_bound(h)]
+        self.N.known_source = lambda: list(self.hyps)
         self.timeout_ms = timeout_ms
         self._var = {}
         self._tr_cache = {}
